@@ -1,5 +1,6 @@
 // Replay runner for C20. `position.rs` of the working tree is compiled verbatim as a module of this
 // binary (its #[cfg(test)] module cut off); dora-parser's compute_line_starts and Span are the real ones.
+mod docsym;
 mod position;
 use dora_parser::compute_line_starts;
 use lsp_types::Position;
@@ -87,6 +88,57 @@ fn check_text(text: &str) -> Option<String> {
     None
 }
 
+// ---- symbol ranges (document_symbols.rs, cut verbatim into docsym.rs; executed, not proved) ----------------------
+const CODE_ATOMS: [&str; 40] = [
+    "fn f() {}", "fn g(a: Int64): Int64 { a }", "class A { x: Int64, y: Bool }", "class B", "struct S(Int64, Bool)", "struct P { a: Int64 }",
+    "enum E { A, B(Int64), C { v: Int64 } }", "trait T { fn m(); fn n(): Int64; }", "impl T for A { fn m() {} fn n(): Int64 { 1 } }",
+    "impl A { fn q() {} static fn r() {} }", "mod m { fn h() {} class Inner { z: Int64 } }", "const K: Int64 = 1;", "let G: Int64 = 1;",
+    "type Al = Int64;", "use std::string::String;", "extern fn e();", "@Test fn t() {}", "pub", "fn", "class", "{", "}", "(", ")", ";", ":",
+    "fn é() {}", "class Ü😀 { ö: Int64 }", "// c 😀\n", "/* a\nb */", " ", "\n", "\r\n", "\r", "\t", "fn a()\r\n{\r\n}\r\n", "enum", "trait X {", "impl", "\u{e0100}",
+];
+fn gen_code(rng: &mut Rng, n: usize) -> String {
+    let mut s = String::new();
+    for _ in 0..n {
+        s.push_str(CODE_ATOMS[rng.below(CODE_ATOMS.len())]);
+        match rng.below(4) { 0 => s.push(' '), 1 => s.push('\n'), _ => {} }
+    }
+    s
+}
+thread_local! { static LAST_PANIC: std::cell::RefCell<String> = std::cell::RefCell::new(String::new()); }
+fn pos_le(a: &Position, b: &Position) -> bool { (a.line, a.character) <= (b.line, b.character) }
+fn check_symbol(sym: &lsp_types::DocumentSymbol, parent: Option<&lsp_types::Range>, end: &Position, depth: usize) -> Result<usize, String> {
+    let r = &sym.range;
+    let sel = &sym.selection_range;
+    if !pos_le(&r.start, &r.end) { return Err(format!("symbol {:?}: range start after end", sym.name)); }
+    if !pos_le(&r.end, end) { return Err(format!("symbol {:?}: range ends at ({}, {}) after the document end ({}, {})", sym.name, r.end.line, r.end.character, end.line, end.character)); }
+    if !(pos_le(&r.start, &sel.start) && pos_le(&sel.start, &sel.end) && pos_le(&sel.end, &r.end)) {
+        return Err(format!("symbol {:?}: selection range ({},{})-({},{}) not inside its range ({},{})-({},{})", sym.name,
+            sel.start.line, sel.start.character, sel.end.line, sel.end.character, r.start.line, r.start.character, r.end.line, r.end.character));
+    }
+    if let Some(p) = parent {
+        if !(pos_le(&p.start, &r.start) && pos_le(&r.end, &p.end)) { return Err(format!("symbol {:?}: range not inside its parent's range", sym.name)); }
+    }
+    let mut n = 1;
+    if depth < 64 {
+        for c in sym.children.iter().flatten() { n += check_symbol(c, Some(r), end, depth + 1)?; }
+    }
+    Ok(n)
+}
+/// None = fine; Some(what) = violation
+fn check_symbols(text: &str) -> Option<String> {
+    let owned = std::sync::Arc::new(text.to_string());
+    let syms = match std::panic::catch_unwind(|| docsym::vx_scan(owned)) {
+        Ok(s) => s,
+        Err(_) => return Some(format!("document symbol scan panicked at {}", LAST_PANIC.with(|c| c.borrow().clone()))),
+    };
+    let ls = compute_line_starts(text);
+    let end = utf8_offset_to_utf16_position(text, &ls, text.len() as u32);
+    for s in syms.iter() {
+        if let Err(e) = check_symbol(s, None, &end, 0) { return Some(e); }
+    }
+    None
+}
+
 fn to_hex(s: &str) -> String { s.bytes().map(|b| format!("{:02x}", b)).collect() }
 fn from_hex(h: &str) -> String {
     let b: Vec<u8> = (0..h.len() / 2).map(|i| u8::from_str_radix(&h[2 * i..2 * i + 2], 16).unwrap()).collect();
@@ -94,8 +146,35 @@ fn from_hex(h: &str) -> String {
 }
 
 fn main() {
-    std::panic::set_hook(Box::new(|_| {}));
+    if std::env::var("VX_BACKTRACE").is_err() {
+        // remember WHERE the last panic happened (file name and line, without the checkout path): a finding is keyed by it
+        std::panic::set_hook(Box::new(|info| {
+            let loc = info.location().map(|l| {
+                let f = l.file();
+                let short = match f.find("dora-") { Some(i) => &f[i..], None => f };
+                format!("{}:{}", short, l.line())
+            }).unwrap_or_else(|| "unknown location".to_string());
+            LAST_PANIC.with(|c| *c.borrow_mut() = loc);
+        }));
+    }
     let args: Vec<String> = std::env::args().collect();
+    if args.len() >= 3 && args[1] == "dump-symbols" {
+        let t = from_hex(&args[2]);
+        fn dump(s: &lsp_types::DocumentSymbol, d: usize) {
+            println!("{}{:?} {:?} range ({},{})-({},{}) sel ({},{})-({},{})", "  ".repeat(d), s.kind, s.name, s.range.start.line, s.range.start.character, s.range.end.line, s.range.end.character,
+                     s.selection_range.start.line, s.selection_range.start.character, s.selection_range.end.line, s.selection_range.end.character);
+            for c in s.children.iter().flatten() { dump(c, d + 1); }
+        }
+        for s in docsym::vx_scan(std::sync::Arc::new(t)).iter() { dump(s, 0); }
+        return;
+    }
+    if args.len() >= 3 && args[1] == "replay-symbols" {
+        let t = from_hex(&args[2]);
+        match check_symbols(&t) {
+            Some(w) => { println!("STILL FAILS on the real code: text {:?}: {}", t, w); std::process::exit(1) }
+            None => { println!("text passes on the real code"); std::process::exit(0) }
+        }
+    }
     if args.len() >= 3 && args[1] == "replay" {
         let t = from_hex(&args[2]);
         match check_text(&t) {
@@ -122,11 +201,21 @@ fn main() {
         if let Some(w) = check_text(t) { println!("{{\"found\":true,\"tried\":{},\"text_hex\":\"{}\",\"what\":{:?}}}", tried, to_hex(t), w); return; }
     }
     let mut rng = Rng(seed.wrapping_mul(0x9E3779B97F4A7C15) | 1);
+    let mut sym_tried = 0u64;
     while t0.elapsed() < budget {
+        // every 4th case: a program-like text through the document-symbol scan
+        if tried % 4 == 3 {
+            let n = [1usize, 2, 4, 9, 25][rng.below(5)];
+            let t = gen_code(&mut rng, n);
+            tried += 1;
+            sym_tried += 1;
+            if let Some(w) = check_symbols(&t) { println!("{{\"found\":true,\"tried\":{},\"kind\":\"symbols\",\"text_hex\":\"{}\",\"what\":{:?}}}", tried, to_hex(&t), w); return; }
+            continue;
+        }
         let n = [1usize, 3, 8, 20, 60][rng.below(5)];
         let t = gen_text(&mut rng, n);
         tried += 1;
         if let Some(w) = check_text(&t) { println!("{{\"found\":true,\"tried\":{},\"text_hex\":\"{}\",\"what\":{:?}}}", tried, to_hex(&t), w); return; }
     }
-    println!("{{\"found\":false,\"tried\":{},\"exhaustive_small\":{}}}", tried, all.len());
+    println!("{{\"found\":false,\"tried\":{},\"exhaustive_small\":{},\"symbol_scans\":{}}}", tried, all.len(), sym_tried);
 }
